@@ -36,6 +36,7 @@ SUBJ = {
  "F46": "`test --dir` ran a test file against the wrong rules file",
  "F43": "an empty plain YAML scalar was loaded as the empty string",
  "F44": "a map with the same key twice was loaded with inconsistent contents",
+ "F40": "captured map keys were recorded again every time",
  "F31": "`test` listed the rules of a test case in a different order",
 }
 log = subprocess.run(["git", "-C", "/repo", "log", "--format=%h %s"], capture_output=True, text=True).stdout.splitlines()
